@@ -2,6 +2,7 @@ package main
 
 import (
 	"fmt"
+	"sort"
 	"strings"
 
 	"github.com/mmcloughlin/avo/attr"
@@ -247,4 +248,78 @@ func pipelineCorpus() []*Prog {
 		add(x86.RET())
 	})
 	return ps
+}
+
+// sweepProgs: every (every-th) instruction constructor once inside a small program over virtual
+// registers: three constructor-built instructions sharing one register collection, then RET.  Makes the
+// pipeline passes (liveness, allocation, binding, clean-up) face every opcode and operand shape the
+// constructors can produce, not only the instructions the random program generator knows.
+func sweepProgs(c *Ctx, every int) []*Prog {
+	ctors := readCtors(c.Repo)
+	d := dumpForms(c.Repo)
+	opcIndexOf := map[string]int{}
+	for k, v := range d.OpcName {
+		opcIndexOf[v] = k
+	}
+	var names []string
+	for n := range ctors {
+		names = append(names, n)
+	}
+	sort.Strings(names)
+	rng := NewRNG(c.Seed + 4242)
+	var out []*Prog
+	var cur *Prog
+	var coll *reg.Collection
+	count := 0
+	for k, name := range names {
+		if k%every != int(c.Seed)%every {
+			continue
+		}
+		ci := ctors[name]
+		for _, df := range ci.Doc {
+			if cur == nil {
+				cur = &Prog{Tags: map[string]bool{"ctor-sweep": true}, Attrs: attr.NOSPLIT}
+				coll = reg.NewCollection()
+				count = 0
+			}
+			var ops []operand.Op
+			okf := true
+			for _, tn := range df[1:] {
+				t := strings.ToUpper(tn)
+				if strings.HasPrefix(t, "REL") {
+					okf = false
+					break
+				}
+				ss := samplesFor(t, rng, coll)
+				if len(ss) == 0 {
+					okf = false
+					break
+				}
+				ops = append(ops, ss[len(ss)-1]) // the virtual sample where the type has one
+			}
+			if !okf {
+				continue
+			}
+			i, err, _ := x86.VerifBuild(opcIndexOf[ci.Opcode], ci.Suffixes, ops)
+			if err != nil || i == nil || i.IsBranch || i.IsTerminal {
+				continue
+			}
+			cur.Nodes = append(cur.Nodes, i)
+			cur.Desc += name + " "
+			count++
+			if count == 3 {
+				cur.Nodes = append(cur.Nodes, &ir.Instruction{Opcode: "RET", IsTerminal: true})
+				cur.Desc = "ctor sweep " + strings.TrimSpace(cur.Desc)
+				out = append(out, cur)
+				cur = nil
+			}
+			break
+		}
+	}
+	if cur != nil && count > 0 {
+		cur.Nodes = append(cur.Nodes, &ir.Instruction{Opcode: "RET", IsTerminal: true})
+		cur.Desc = "ctor sweep " + strings.TrimSpace(cur.Desc)
+		out = append(out, cur)
+	}
+	return out
 }
